@@ -59,6 +59,7 @@ class Collector:
         self.samples = []
         self.machinery = []
         self.seen = set()
+        self.events = []
 
     def add(self, payload, r, sample_payload=None):
         if isinstance(r, tuple):
@@ -72,6 +73,8 @@ class Collector:
             self.nontrivial += 1
         for t in r.tags:
             self.tags[t] += 1
+        if r.events:
+            self.events.extend(r.events)
         if r.mismatches:
             self.failed.append((payload, r))
 
@@ -147,6 +150,13 @@ def run_check(modname: str, tier: str, seed: int, replay_path: str | None = None
                              'distinct_states': run.distinct, 'cut_after_max_cases': run.cut, 'cmd': ' '.join(run.cmd[-8:])})
         drain(0)
         extra_info = {}
+        if hasattr(pm, 'post') and col.events:
+            for item in pm.post(col.events, tier, seed, ctx):
+                if isinstance(item, dict):
+                    extra_info.update(item)
+                else:
+                    payload, r = item
+                    col.add(payload, r)
         if hasattr(pm, 'extra'):
             for item in pm.extra(tier, seed, ctx, pool):
                 if isinstance(item, dict):
